@@ -232,12 +232,26 @@ def run_program(case, b):
                 # unit rounding of the chopper distances must not put this frame beyond the next chopper
                 d = min(d, min(b.spec[i][0] for i in ops[k + 1]["choppers"]))
             pu = op.get("unit", "m")
+            cm = None
             if op.get("int") and pu != "m":
-                # whole centimetres, rounded down (never beyond the next chopper)
-                v = math.floor(d * 100 + 1e-9) * (10 if pu == "mm" else 1)
-                seq = seq.propagate_to(sc.scalar(v, unit=pu, dtype="int64"))
+                # whole centimetres: neither beyond the next chopper nor back behind the frame's own
+                # position (a frame is only ever propagated downstream)
+                lo = dist_m(seq[-1].distance)
+                hi = (min(b.spec[i][0] for i in ops[k + 1]["choppers"])
+                      if k + 1 < len(ops) and ops[k + 1]["op"] == "chop" else math.inf)
+                for cand in (math.ceil(d * 100 - 1e-9), math.floor(d * 100 + 1e-9)):
+                    if lo <= cand * 0.01 <= hi and lo <= cand / 100 <= hi:
+                        cm = cand
+                        break
+            if cm is not None:
+                seq = seq.propagate_to(sc.scalar(cm * (10 if pu == "mm" else 1), unit=pu, dtype="int64"))
             else:
-                seq = seq.propagate_to(sc.scalar(d / D_UNITS[pu], unit=pu))
+                target = sc.scalar(d / D_UNITS[pu], unit=pu)
+                here = dist_m(seq[-1].distance)
+                if dist_m(target) < here:
+                    # the division moved the target an ulp upstream of the frame: stay downstream
+                    target = sc.scalar(max(d, here), unit="m")
+                seq = seq.propagate_to(target)
                 if k + 1 < len(ops) and ops[k + 1]["op"] == "chop" and pu != "m":
                     # unit rounding again: redo in metres if the division moved the frame beyond the chopper
                     if dist_m(seq[-1].distance) > min(b.spec[i][0] for i in ops[k + 1]["choppers"]):
